@@ -1602,8 +1602,8 @@ def check_dup_backlinks(chk, prog, unit="dlinked_list.c", only=None, rule="L7"):
         any_creation = False
         bad = []
         for f in unit_closure(f0):
-            if f.cfg is None or "_item_" in f.name:
-                continue
+            if f.cfg is None or re.search(r"_item_(new|init|done|del|show|comp|dup|type|get_data|set_data)$", f.name):
+                continue            # the node class's own methods; a helper that copies a chain of nodes is part of the dup
             cfg = nullness.prepared_cfg(f, NORETURN)
             creations = []
 
